@@ -15,6 +15,7 @@ def scen_basic(rng):
     """two test cases (one in a sub-directory), odd modes, a pre-existing .orig, unrelated files"""
     return {'name': 'basic', 'tree': {'a.c': {'text': 'keep1\nx\ny\nz\n', 'mode': '640'}, 'sub/b.c': {'text': 'keepb\nw\nv\n', 'mode': '600'},
                                      'other.txt': {'text': 'untouched', 'mode': '604'}, 'a.c.orig': {'text': 'older backup'},
+                                     'sub/b.c.orig': {'text': '', 'mode': '600'},        # an existing backup that happens to be empty
                                      'sub/notes': {'text': 'n'}},
             'test_cases': ['a.c', 'sub/b.c'], 'predicate': 'grep -q keep1 a.c && grep -q keepb sub/b.c',
             'groups': {'first': [{'name': 'LinePass'}], 'main': [{'name': 'LinePass', 'arg': 'm'}], 'last': []}, 'N': rng.choice([1, 2, 4]), 'timeout': 5}
@@ -49,6 +50,20 @@ def scen_zero(rng):
             'groups': {'first': [], 'main': [{'name': 'LinePass'}], 'last': []}, 'N': 2, 'timeout': 5, 'mode': 'pass', 'expect': 'ZeroSizeError'}
 
 
+def scen_insane(rng):
+    """the input is rejected by the test: the start-up sanity check fails"""
+    return {'name': 'insane-input', 'tree': {'a.c': {'text': 'keep1\nx\n'}}, 'test_cases': ['a.c'], 'predicate': 'exit 1', 'skip_sanity': False,
+            'groups': {'first': [], 'main': [{'name': 'LinePass'}], 'last': []}, 'N': 2, 'timeout': 5, 'expect': 'InsaneTestCaseError'}
+
+
+def scen_format_insane(rng):
+    """the quiet route: LinesPass.new reformats the file, its sanity checks fail (the test needs the indentation), the pass
+    restores the file and carries on — nothing is reported, nothing may stay behind"""
+    return {'name': 'format-insane', 'tree': {'a.c': {'text': '  keep1;\n  x;\n  y;\n'}}, 'test_cases': ['a.c'], 'predicate': 'grep -q "^  keep1" a.c',
+            'groups': {'first': [], 'main': [{'name': 'lines', 'arg': rng.choice(['0', '1'])}], 'last': []}, 'N': 2, 'timeout': 5,
+            'external': {'topformflat': 'standin:topformflat'}}
+
+
 def scen_die(rng):
     return {'name': 'die-on-pass-bug', 'tree': {'a.c': {'text': 'keep1\nx\n'}}, 'test_cases': ['a.c'], 'predicate': 'exit 0',
             'groups': {'first': [], 'main': [{'name': 'UnalteredPass'}], 'last': []}, 'N': 2, 'timeout': 5, 'mode': 'pass',
@@ -61,7 +76,7 @@ def scen_error_pass(rng):
 
 
 def scen_grow(rng):
-    return {'name': 'growth-bailout', 'tree': {'a.c': {'text': 'keep1\nx\ny\n'}, 'b.c': {'text': 'k\nq\n'}}, 'test_cases': ['a.c', 'b.c'],
+    return {'name': 'growth-bailout', 'tree': {'a.c': {'text': 'keep1\nx\ny\n', 'mode': '640'}, 'b.c': {'text': 'k\nq\n', 'mode': '644'}}, 'test_cases': ['a.c', 'b.c'],
             'predicate': 'grep -q keep1 a.c', 'groups': {'first': [], 'main': [{'name': 'LinePass', 'arg': 'grow'}], 'last': []},
             'N': 2, 'timeout': 5, 'mode': 'pass'}
 
@@ -97,7 +112,15 @@ def scen_real_pass(rng, which):
     spec = {'ifs': {'name': 'ifs'}, 'lines0': {'name': 'lines', 'arg': '0'}, 'linesNone': {'name': 'lines', 'arg': 'None'},
             'blank': {'name': 'blank'}, 'comments': {'name': 'comments'}, 'includes': {'name': 'includes'}, 'line_markers': {'name': 'line_markers'},
             'balanced': {'name': 'balanced', 'arg': 'parens'}, 'ternary': {'name': 'ternary', 'arg': 'b'}, 'unifdef': {'name': 'unifdef'},
-            'ints': {'name': 'ints', 'arg': 'a'}, 'peep': {'name': 'peep', 'arg': 'a'}}[which]
+            'ints': {'name': 'ints', 'arg': 'a'}, 'peep': {'name': 'peep', 'arg': 'a'}}[which.replace('-dense', '')]
+    if which.endswith('-dense'):
+        # the same pass on a text without blank lines (what a second run of the pass meets): other branches of the pass
+        which = which[:-len('-dense')]
+        text = 'int keep1;\n#define X 1\n#if FOO\nint a;\n#endif\nint x; /* d */\n# 1 "f.h"\n#include <s.h>\nint z = (1 ? 2 : 3);\n'
+        spec = dict(spec)
+        return {'name': 'real-pass:' + which + '-dense', 'tree': {'a.c': {'text': text}, 'b.h': {'text': 'int other;\n'}}, 'test_cases': ['a.c', 'b.h'],
+                'predicate': 'grep -q keep1 a.c', 'groups': {'first': [], 'main': [spec], 'last': []}, 'N': 2, 'timeout': 5, 'mode': 'pass',
+                'external': ext}
     return {'name': 'real-pass:' + which, 'tree': {'a.c': {'text': text}, 'b.h': {'text': 'int other;\n'}}, 'test_cases': ['a.c', 'b.h'],
             'predicate': 'grep -q keep1 a.c', 'groups': {'first': [], 'main': [spec], 'last': []}, 'N': 2, 'timeout': 5, 'mode': 'pass',
             'external': ext}
@@ -117,7 +140,8 @@ def scen_dotdot(rng):
             'N': 2, 'timeout': 5, 'mode': 'pass', 'expect_any': True}
 
 
-REAL_PASSES = ['ifs', 'lines0', 'linesNone', 'blank', 'comments', 'includes', 'line_markers', 'balanced', 'ternary', 'unifdef', 'ints', 'peep']
+REAL_PASSES = ['ifs', 'lines0', 'linesNone', 'blank', 'comments', 'includes', 'line_markers', 'balanced', 'ternary', 'unifdef', 'ints', 'peep',
+               'blank-dense', 'includes-dense', 'line_markers-dense', 'comments-dense']
 
 
 # ------------------------------------------------------------------ oracles
